@@ -138,7 +138,7 @@ class ProcRef:
         if p is not self.part:
             self.bad('C06.finished-wrong-part', f'{m.name} finished {p.name} at {now} but the part in process is '
                      f'{getattr(self.part, "name", None)}')
-        if abs(self.elapsed - self.expected) > mon.tol:
+        if self.expected is not None and abs(self.elapsed - self.expected) > mon.tol:
             self.bad('C06.cycle', f'{m.name} finished {p.name} at {now} after {self.elapsed} of operational time, '
                      f'the cycle time in effect at acceptance was {self.expected}')
         if not self.up:
@@ -1098,6 +1098,7 @@ class Monitor:
                     self.sys.simulate(d, trace=True, print_summary=False)
                     for f in (self.m.between.get(i, []) if i < len(self.spec['T']) - 1 else []):
                         f()
+                    self.adopt_late_devices()
                 self.trace_check(os.path.join(home, 'Downloads', f'{self.env.name}_trace.json'))
             finally:
                 if old_home is None:
